@@ -6,6 +6,10 @@ tag = sys.argv[2] if len(sys.argv) > 2 else "a"
 EXTRA = "" if tag == "a" else """
 This is a second round: a first round already produced simple one-token operator flips and off-by-one changes in the most obvious functions. Prefer changes of a different nature: stale or shared state (a cache or memo that is not invalidated, a list aliased instead of copied), a wrong order of two statements, a special case dropped from a rarely used option or code path, a helper used by two callers changed for one caller's convenience, two small edits that are each harmless alone. Look at less central files among the anchors too.
 """
+if tag.startswith("c"):
+    EXTRA = """
+This is a third round: earlier rounds already produced operator flips, off-by-one changes, dropped cache invalidations, aliased lists and reordered statements in the central functions. Prefer changes of yet another nature: a live object that is re-queried after one of its options was reassigned (setter forgets part of the update); an interaction of two features that are each fine alone (focus and resize, encoding switch and a cached layout, an in-place edit and a remembered position, a callback that re-enters the API); cleanup or error paths (what happens after an exception was raised and handled once, second start after stop); behaviour that only differs on the second or third repetition of the same step; rarely used public options, subclasses and helper functions among the anchors; boundary values of numeric parameters (0, 1, the exact maximum, negative). Avoid the single most central function of the property if a less obvious site can break it too.
+"""
 prop = next(json.loads(l) for l in open('/verif/properties.jsonl') if json.loads(l)['id'] == pid)
 wt = f"/tmp/seedwork/wt_{pid}_{tag}"
 if not os.path.exists(wt):
